@@ -115,7 +115,11 @@ def build_layer(d, roots):
     t = d['t']
     if t == 'source':
         ids = tuple(d['ids'])
-        items = [('ids', meta(Function(_const_ids_list(ids) if d.get('ids_as_list') else _const_ids(ids))))]
+        if d.get('ids_as_str'):
+            # a dataset may give its (one-character) ids as a string
+            items = [(d.get('ids_name', 'ids'), meta(Function(_const_ids_str(ids))))]
+        else:
+            items = [(d.get('ids_name', 'ids'), meta(Function(_const_ids_list(ids) if d.get('ids_as_list') else _const_ids(ids))))]
         for name, s in d.get('meta', {}).items():
             items.append((name, meta(Function(sym(s)))))
         for name, s in d['fields'].items():
@@ -217,6 +221,21 @@ def _const_ids(ids):
         f.__name__ = f.__qualname__ = 'ids_' + '_'.join(ids)
         _IDS_FUNCS[ids] = f
     return _IDS_FUNCS[ids]
+
+
+_IDS_STRS = {}
+
+
+def _const_ids_str(ids):
+    assert all(len(i) == 1 for i in ids)
+    if ids not in _IDS_STRS:
+        text = ''.join(ids)
+
+        def f():
+            return text
+        f.__name__ = f.__qualname__ = 'idsstr_' + text
+        _IDS_STRS[ids] = f
+    return _IDS_STRS[ids]
 
 
 _IDS_LISTS = {}
